@@ -909,6 +909,7 @@ func (sm *shardManagerImpl) broadcastShardChange(msgType string, shard history.C
 	}
 	sm.remoteNodeStatesMu.RUnlock()
 
+	vfBroadcast(sm.GetNodeName(), nodeNames, data)
 	for _, nodeName := range nodeNames {
 		// Send in goroutine to make it non-blocking
 		// Look up fresh node pointer when sending to avoid race with memberlist updates
